@@ -5,13 +5,34 @@ V = os.path.dirname(os.path.dirname(os.path.abspath(__file__)))
 NOTE = ("Trusted: Lean 4.33 kernel (axioms per theorem audited, allowed propext/Classical.choice/Quot.sound), "
         "Lean runtime executing the model and the proved certificate checker, the Rust harness (dump walker, codec), "
         "the Python orchestrator.  Pattern lists/configurations are generated, not universal.")
+CORR = ("Correspondence: Tie A certificates (every reachable state x 256 bytes x both anchorings of every real build, checked by the "
+        "Lean-proved certOk against the ideal automaton / the noncontiguous NFA) and Tie B differential lines (harness vs acdrv).")
 CHECKS = {
  "C04": ("translation_validation",
          "Per pattern list: every build (noncontiguous/contiguous/DFA x start kind x dense depth x byte classes) is dumped "
          "through the public Automaton trait and certified bisimilar to the noncontiguous NFA by a checker whose soundness "
-         "is a Lean theorem (certOk_sound): equal observations after every byte string, i.e. for haystacks of every length. "
-         "Top-level vs low-level agreement is differential.", "5 C04",
-         "Lean-proved bisimulation certificate checker over dumped automata + differential lines"),
+         "is a Lean theorem (C04_cert_all_haystacks): equal observations after every byte string; C04_*_transfer prove that "
+         "every engine function (find, iterator, stepwise overlapping) then returns identical results for every haystack, span, "
+         "anchoring and prefilter function. Top-level vs low-level agreement is differential.", "5 C04",
+         "Lean-proved bisimulation certificate checker over dumped automata + engine transfer theorems + differential lines"),
+ "C10": ("proof",
+         "Lean theorems on the specification: occurrences/answers on a span equal those on the sub-slice shifted (C10_find_slice, "
+         "C10_overlap_slice), depend only on the bytes inside the span (C10_*_frame), lie inside the span, and start=end+1 yields "
+         "nothing for every automaton (C10_done). The engine is tied to the specification by the C01/C02/C03 theorems; the code is "
+         "compared with the model on (span, sub-slice, outside-bytes-changed) request triples, and impl-vs-impl on the triples.", "5 C10",
+         "Lean proof of slice/frame invariance of the specification + differential triples"),
+ "C13": ("proof",
+         "The gate model (enforce_anchored_consistency, start_state, match-kind / anchored / empty-pattern checks, in code order) "
+         "is a total function of (API, match kind, start kind, anchoring, has-empty-pattern); C13_rejected_iff proves rejected <-> "
+         "(a)|(b)|(c)|(d) for top-level and low-level orders. Correspondence is exhaustive over all 21 entry points x 3 match kinds "
+         "x 3 start kinds x 2 anchorings x 4 automaton kinds x {with, without empty pattern}, run under catch_unwind.", "5 C13",
+         "Lean case-analysis theorem over the finite gate table + exhaustive differential of all entry points"),
+ "C16": ("translation_validation",
+         "contractOk is checked on the exhaustive dump (all reachable states x 256 bytes x both anchoring arguments) of every build; "
+         "C16_contract_reachable / C16_dead_absorbing lift the local check to every reachable state and word; C16_recipe_eq_find "
+         "proves the documented caller-written loop equals the built-in search for every automaton record; the recipe is also run in "
+         "Rust on the real automata and compared with the model.", "5 C16",
+         "Lean-proved contract checker on exhaustive automaton dumps + proof of recipe equivalence + differential"),
 }
 def main():
     m = {"version": 1, "setup_cmd": "./setup.sh",
